@@ -2,12 +2,16 @@
   C02 — Reported identity always comes from signature-covered content.
 
   What is proved (about the model of Model/Xsw.lean, i.e. relative to the stand-in's reading of
-  xmlsec1 and to ideal digests/signatures): if `_check_signature` accepts an element and that
-  element's own, single ds:Signature child is the first ds:Signature in document order below it
-  (`OwnSigFirst` — what a schema-ordered document satisfies), then the SignatureValue is the
+  xmlsec1 and to ideal digests/signatures): if `_check_signature` accepts an element that carries the
+  node name its ID attribute is registered for (`htag` — pysaml2 always passes the class name of the
+  element it checks) and that element's own, single ds:Signature child is the first ds:Signature in
+  document order below it (`OwnSigFirst` — what a schema-ordered document satisfies), then the SignatureValue is the
   key-holder's signature over exactly that Signature's SignedInfo, whose single Reference names the
   element's own ID and whose DigestValue is the digest of exactly the element's content minus that
   signature.  Everything pysaml2 reports is harvested from that element, so it is covered.
+  That the registered ID resolves to the checked element itself is not assumed: it is the lemma
+  `Xsw.registerIds_resolves` (the traversal lists every reachable node; a repeated ID value makes
+  registration fail, so the ID of the element can only map to the element's own path).
 
   The full statement without `OwnSigFirst` is FALSE of the model and of the implementation
   (signature wrapping, known finding C02/xsw-first-signature-not-own): `C02_counterexample`.
@@ -59,11 +63,12 @@ theorem lookup_find (ids : List (String × Path)) (id : String) (p : Path) (h : 
       simp only [hne2]
       exact ih h
 
-/-- C02 (partial, under `OwnSigFirst`): what an accepted signature check establishes. -/
+/-- C02 (partial, under `OwnSigFirst`): what an accepted signature check establishes for an element
+    that has the registered node name (`htag`). -/
 theorem C02_covered_partial (doc item sig si : XNode) (itemPath : Path) (nodeName : String) (key : Nat)
     (schemaOk : Bool) (j k : Nat)
     (hitem : nodeAt doc itemPath = some item)
-    (hres : ∀ ids id, registerIds doc nodeName = some ids → item.attr "ID" = some id → ids.lookup id = some itemPath)
+    (htag : item.tag = nodeName)
     (hown : OwnSigFirst item sig si j k)
     (hchk : checkSignature doc itemPath nodeName key schemaOk = true) :
     ∃ id ref dv sv,
@@ -109,7 +114,7 @@ theorem C02_covered_partial (doc item sig si : XNode) (itemPath : Path) (nodeNam
           | some ids =>
             rw [hreg] at hid
             simp only at hid
-            have hlk := hres ids id hreg hidv
+            have hlk := registerIds_resolves doc item itemPath nodeName ids id hitem htag hidv hreg
             rw [hlk] at hid
             simp only at hid
             rw [hitem] at hid
@@ -167,16 +172,16 @@ theorem C02_covered_partial (doc item sig si : XNode) (itemPath : Path) (nodeNam
 theorem C02_covered_partial_b (doc item sig si : XNode) (itemPath : Path) (nodeName : String) (key : Nat)
     (schemaOk : Bool) (j k : Nat)
     (hitem : nodeAt doc itemPath = some item)
-    (hres : ∀ ids id, registerIds doc nodeName = some ids → item.attr "ID" = some id → ids.lookup id = some itemPath)
+    (htag : item.tag = nodeName)
     (hown : OwnSigFirst item sig si j k)
     (hchk : checkSignature doc itemPath nodeName key schemaOk = true) :
     coveredB item key = true := by
   obtain ⟨id, ref, dv, sv, hid, hrefs, huri, hdv, hdig, hsv, hsig⟩ :=
-    C02_covered_partial doc item sig si itemPath nodeName key schemaOk j k hitem hres hown hchk
+    C02_covered_partial doc item sig si itemPath nodeName key schemaOk j k hitem htag hown hchk
   unfold coveredB
   apply List.any_eq_true.mpr
   refine ⟨(sig, j), List.mem_zipIdx_iff_getElem?.mpr hown.sigAt, ?_⟩
-  have htag : (sig.tag == dsSignature) = true := by
+  have hsigtag : (sig.tag == dsSignature) = true := by
     have := hown.lastSig
     unfold lastChild at this
     simp only [Option.map_eq_some_iff] at this
@@ -184,7 +189,7 @@ theorem C02_covered_partial_b (doc item sig si : XNode) (itemPath : Path) (nodeN
     have hp := List.find?_some hq
     cases hqe
     exact hp
-  simp only [htag, Bool.true_and, hown.firstSI, hid, Bool.and_eq_true]
+  simp only [hsigtag, Bool.true_and, hown.firstSI, hid, Bool.and_eq_true]
   refine ⟨?_, ?_⟩
   · apply List.any_eq_true.mpr
     refine ⟨ref, by rw [hrefs]; simp, ?_⟩
@@ -224,7 +229,14 @@ private def genuineDoc : XNode :=
 example : checkSignature genuineDoc [] tResponse 1 true = true := by decide
 example : coveredB genuineDoc 1 = true := by decide
 example : checkSignature genuineDoc [] tResponse 2 true = false := by decide       -- another key
-/-- the hypotheses of `C02_covered_partial` are satisfiable -/
+/-- the hypotheses of `C02_covered_partial` are satisfiable: the element has the registered name … -/
+example : nodeAt genuineDoc [] = some genuineDoc ∧ genuineDoc.tag = tResponse := ⟨rfl, rfl⟩
+/-- … its registered ID resolves to its own path (an instance of `registerIds_resolves`) … -/
+example : ∃ ids, registerIds genuineDoc tResponse = some ids ∧ ids.lookup "orig" = some [] := by
+  cases h : registerIds genuineDoc tResponse with
+  | none => exact absurd h (by decide)
+  | some ids => exact ⟨ids, rfl, registerIds_resolves genuineDoc genuineDoc [] tResponse ids "orig" rfl rfl rfl h⟩
+/-- … and its own signature comes first -/
 example : OwnSigFirst genuineDoc (signature "#orig" origContent 1) (signedInfo "#orig" origContent) 0 0 :=
   { first := by decide, sigAt := rfl, lastSig := rfl, firstSI := rfl, lastSI := rfl,
     transformsView := by
